@@ -52,6 +52,7 @@ MENU = [
     ('calc', 'start: sum\n?sum: prod | sum "+" prod\n?prod: atom | prod "*" atom\n?atom: X | "(" sum ")"\nX: "x"\n%ignore " "\n', 'x+*()', 6),
     ('pairs', 'start: pair ("," pair)*\npair: X ":" val\n?val: X | "[" val ("," val)* "]" | "[" "]" -> empty\nX: "x"\n%ignore " "\n', 'x:,[]', 7),
     ('sigil', 'start: (REF NAME ";" | NAME REF ";")+\nREF: /\\$[a-c]+/\nNAME: /[a-c]+/\n%ignore " "\n', 'SIGIL', 0),
+    ('term-subs', 'start: item (_SEP item)* _END?\nitem: X | "(" start ")"\nX: "x"\n_SEP: /[,;]/\n_END: /[.!]/\n%ignore " "\n', 'x,;.()', 6),
     ('kw', 'start: stmt+\nstmt: "if" NAME "then" stmt -> cond | NAME "=" NAME ";" -> assign\nNAME: /[a-c]/\n%ignore " "\n', None, 0),
 ]
 SIGIL_INPUTS = ['$a b;', 'a $b;', '$ab c;$c a;', 'ab $c; $a bc;']
@@ -86,6 +87,9 @@ def roundtrip(p, rec, w, named):
     return obs.canon(t1), text2, obs.canon(t2)
 
 
+TERM_SUBS = {'term-subs': {'_SEP': lambda sym: ';', '_END': lambda sym: '!'}}      # filtered *regexp* terminals need term_subs
+
+
 def check_parser(gtext, parser, inputs, res, cfg, only=None):
     r = larkio.build(gtext, parser=parser, maybe_placeholders=False)
     res['evals'] += 1
@@ -99,7 +103,7 @@ def check_parser(gtext, parser, inputs, res, cfg, only=None):
     for order in ('forward', 'reverse'):
         if only and only['order'] != order:
             continue
-        rc = util.timed(lambda: Reconstructor(p), 20)
+        rc = util.timed(lambda: Reconstructor(p, TERM_SUBS.get(cfg.get('menu'))), 20)
         if rc[0] != 'ok':
             res['viol'].append({'kind': 'reconstructor-construction', 'cause': 'construction', 'case': cfg, 'expected': 'constructed', 'observed': repr(rc[1])[:200]})
             return
